@@ -1,4 +1,4 @@
-import CandidModel.Proofs.Bindgen
+import CandidModel.Proofs.BindgenDenote
 /-
   C17 — the generated JavaScript binding denotes the same service interface.
   Property theorems only (helper lemmas: Proofs/Bindgen.lean).  The emitted module is modelled as the two
@@ -28,6 +28,22 @@ theorem emitted_definitions_closed (env : Env) (actor : Ty) (defs : List String)
   obtain ⟨st', hst, hres⟩ := (map_ok _ _ _).mp h
   subst hres
   exact closed_of_spec env st' _ (chaseType_spec env _ actor _ st' hst)
+
+/-- **The factory denotes the source interface**: the statements of the service factory (and of the init-args
+factory) bind every name reachable from the service (the init arguments) exactly once and to the very definition the
+program gives it — `const x = t` or, for a name declared recursive first, `x.fill(t)` — every `IDL.Rec()` cell is
+filled exactly once, and the single `return` returns the service type (the init argument types).  Methods,
+annotations, argument and result types, field ids and the recursion structure are therefore those of the source. -/
+theorem factory_denotes_the_source (env : Env) (actor : Ty) (f i : List Stmt) (h : jsFactory env actor = .ok (f, i)) :
+    Denotes env f (varsOf actor) [(splitActor actor).2] ∧
+    Denotes env i (varsOfTys (splitActor actor).1) (splitActor actor).1.toList :=
+  jsFactory_denotes env actor f i h
+
+/-- hence the environment an IDL builder ends up with agrees with the program's on every name the factory binds -/
+theorem built_environment_agrees_with_source (env : Env) (actor : Ty) (f i : List Stmt)
+    (h : jsFactory env actor = .ok (f, i)) (x : String) (hx : x ∈ (bindings f).map (·.1)) :
+    Env.find (bindings f) x = env.find x :=
+  (jsFactory_denotes env actor f i h).1.find_eq x hx
 
 /-- what `ident` does now, as read off /repo by the translator: the stem without trailing underscores is
 looked up, and the factory parameter is escaped -/
@@ -81,5 +97,21 @@ theorem ident_injective (a b : String) (h : jsIdent a = jsIdent b) : a = b := by
     rw [h, trim_append_underscore] at hka
     rw [hkb] at hka; cases hka
   · rw [ha, hb] at h; exact h
+
+/-- non-vacuity: the generator returns on a mutually recursive pair behind a service -/
+example : ∃ f i, jsFactory [("A", .opt (.var "B")), ("B", .record (.cons (.id 0) (.var "A") .nil))]
+    (.service (.cons "m" (.func (.cons (.var "A") .nil) .nil []) .nil)) = .ok (f, i) := by
+  apply generator_total
+  · intro x t h v hv
+    simp only [Env.find] at h
+    split at h
+    · simp only [Option.some.injEq] at h; subst h
+      simp only [varsOf, List.mem_singleton] at hv; subst hv; decide
+    · split at h
+      · simp only [Option.some.injEq] at h; subst h
+        simp only [varsOf, varsOfFields, List.append_nil, List.mem_singleton] at hv; subst hv; decide
+      · simp at h
+  · intro v hv
+    simp only [varsOf, varsOfMeths, varsOfTys, List.append_nil, List.mem_singleton] at hv; subst hv; decide
 
 end Candid.Props.C17
